@@ -94,6 +94,12 @@ def extra_cases(rng, tier):
     for form in ("noncontiguous", "float32_radius", "fortran_2d_slice", "readonly", "mmap_readonly"):
         add("array_form_" + form, array_form=form)
     add("result_lifetime", check_lifetime=True)
+    # expected_size is a storage HINT for the integrator: any value (0 = let the integrator choose) must give the same answer and
+    # must never end the interpreter, whatever the share of a thin layer in the grid is
+    for lay_name, lay in (("equal", [20, 20, 20]), ("40_40_20", [40, 40, 20]), ("thin_top", [400, 400, 5])):
+        for es in (0, 2, 3, 7, 16, 500):
+            add("expected_size_%s_%d" % (lay_name, es), n=lay, expected_size=es, layers=[dict(CORE, R=3.0e6), dict(SOLID, R=5.5e6), dict(SOLID, R=6.0e6, rho=3300.0)])
+    add("expected_size_equal_1", n=[20, 20, 20], expected_size=1, layers=[dict(CORE, R=3.0e6), dict(SOLID, R=5.5e6), dict(SOLID, R=6.0e6, rho=3300.0)])
     # liquid surface layers (static and dynamic), liquid sandwiches, five-layer stacks
     for static in (True, False):
         for freq in (1.0e-4,):
@@ -213,7 +219,7 @@ def run(tier, seed):
         top = c["layers"][-1]
         top_kind = "%s_%s" % (top["type"], "static" if top["static"] else "dynamic")
         if r["exit"] != 0 or r["res"] is None:
-            ck.violation({"clause": "total", "top_layer": top_kind, "status": str(r["exit"]), "case": name if name == "zero_first_radius" else "other"}, "case %s (nondim=%s) ended the interpreter: exit status %s %s" % (name, c["nondim"], r["exit"], r["stderr"][-300:]), det)
+            ck.violation({"clause": "total", "top_layer": top_kind, "status": str(r["exit"]), "case": name if name in ("zero_first_radius", "expected_size_equal_1") else ("expected_size" if name.startswith("expected_size_") else "other")}, "case %s (nondim=%s) ended the interpreter: exit status %s %s" % (name, c["nondim"], r["exit"], r["stderr"][-300:]), det)
             continue
         o = r["res"]
         if not o["inputs_restored"]:
@@ -223,6 +229,15 @@ def run(tier, seed):
             ck.violation({"clause": "failure_protocol", "case": fam}, "case %s: unsuccessful solve exposes a result / has no message: %s" % (name, o), det)
         if o["outcome"] == "returned_ok" and (o["result_none"] or o["love_none"]):
             ck.violation({"clause": "failure_protocol", "case": fam}, "case %s: successful solve has no result" % name, det)
+        if name.startswith("expected_size_") and o["outcome"] == "returned_ok":
+            ref_name = name.rsplit("_", 1)[0] + "_0"
+            ref = next((rr["res"] for cc, rr in zip(extras, results[len(cases):]) if cc["name"] == ref_name and cc["nondim"] == c["nondim"] and rr["res"]), None)
+            if ref and ref.get("love") and o.get("love"):
+                dd = max(abs(complex(*a) - complex(*b)) for a, b in zip(o["love"], ref["love"]))
+                if dd > 1e-9:
+                    ck.violation({"clause": "expected_size_is_a_hint", "case": name}, "case %s: Love numbers differ by %.3g from the run with expected_size = 0" % (name, dd), det)
+        if name.startswith("expected_size_") and o["outcome"] != "returned_ok":
+            ck.violation({"clause": "expected_size_is_a_hint", "case": name, "outcome": o["outcome"]}, "case %s: a valid stack no longer solves: %s %s" % (name, o["outcome"], o.get("msg", "")), det)
         if c.get("check_lifetime") and o.get("lifetime_ok") is False:
             ck.violation({"clause": "result_lifetime", "api": "RadialSolverSolution.result/.love"},
                          "arrays returned by .result / .love change after the solution object is collected (they alias memory the object frees): `radial_solver(...).love` reads freed memory", det)
